@@ -183,3 +183,84 @@ Theorem C06_replay_rejected_udp :
   (u_verdict (fst r) = V_replay_drop \/ u_verdict (fst r) = V_undecryptable).
 Proof. exact c06_replay_rejected_udp_real. Qed.
 Print Assumptions C06_replay_rejected_udp.
+
+(* ---- management reloads (Mux.SetServerUsers, the body of the Reload RPC) ----
+   Server state = (users generation, replay cache) (model/Replay.v [server], [set_users], [sstep]). *)
+
+(* a reload installs the new generation and leaves the replay cache exactly as it was; over a whole history the
+   cache is the one produced by the traffic alone, wherever and however often reloads are interleaved *)
+Theorem C06_reload_leaves_cache_untouched :
+  (forall (s : server) (g : N), s_rc (set_users s g) = s_rc s /\ s_users (set_users s g) = g) /\
+  (forall (h : list sop) (s : server), s_rc (sfinal s h) = final (s_rc s) (presents h)).
+Proof. exact (conj set_users_spec sfinal_cache). Qed.
+Print Assumptions C06_reload_leaves_cache_untouched.
+
+(* the no-miss theorem over histories interleaved with reloads: only the traffic counts for the bounds *)
+Theorem C06_replay_no_miss_across_reload :
+  forall (capv iv T0 : Z) (c0 : cache) (g0 : N) (hs1 : list sop)
+         (x : N) (ta : tag) (t0 : Z) (hs2 : list sop) (tq : tag) (t1 : Z),
+  new_cache capv iv T0 = Some c0 -> capv <> 0 ->
+  fst (sstep (sfinal (mkServer g0 c0) hs1) (Present (x, ta, t0))) = Some false ->
+  mono_from t0 (presents hs2 ++ [(x, tq, t1)]) ->
+  t1 < t0 + iv ->
+  Z.of_nat (length (nodup N.eq_dec (remove N.eq_dec x (map op_sig (presents hs2))))) < capv ->
+  fst (sstep (sfinal (mkServer g0 c0) (hs1 ++ Present (x, ta, t0) :: hs2)) (Present (x, tq, t1))) = Some (tag_rule ta tq).
+Proof. exact replay_no_miss_across_reload. Qed.
+Print Assumptions C06_replay_no_miss_across_reload.
+
+(* TCP end to end across reloads.  Discovery tries the keys of the generation that is current at that moment
+   ([cands_of g], always a selection of [keys_of g]); generations are arbitrary (same users, users added or
+   removed, quotas changed).  A first segment accepted under the generation current at t0, copied at
+   t1 < t0 + retention inside the capacity bound after ANY history hs2 of traffic and reloads: nothing written,
+   no session, nothing for the application, REPLAY_ERROR - whether or not the current generation decrypts it. *)
+Theorem C06_replay_rejected_across_reload_tcp :
+  forall (key : Type) (open_hdr : key -> bytes -> option bytes) (open_body_tcp : key -> bytes -> bytes -> option bytes)
+         (le_ok : bytes -> bool) (le_decode : bytes -> bytes -> option bytes) (sig_of : bytes -> N)
+         (cands_of : N -> bytes -> addr -> list key) (keys_of : N -> list key),
+  (forall (g : N) (h : bytes) (src : addr) (k : key), In k (cands_of g h src) -> In k (keys_of g)) ->
+  forall (T0 : Z) (c0 : cache) (g0 : N)
+         (hs1 : list sop) (src0 : addr) (input0 : bytes) (t0 : Z)
+         (hs2 : list sop) (src1 : addr) (input1 : bytes) (t1 : Z),
+  new_cache streamReplayCapacity streamReplayInterval_ns T0 = Some c0 ->
+  let s0 := mkServer g0 c0 in
+  let front (s : server) :=
+    tcp_front key open_hdr open_body_tcp le_ok le_decode (cands_of (s_users s)) sig_of cache is_duplicate (s_rc s) in
+  t_created (fst (front (sfinal s0 hs1) src0 input0 t0)) <> [] ->
+  firstn hdr_len input1 = firstn hdr_len input0 ->
+  let x := sig_of (firstn sig_len (firstn hdr_len input0)) in
+  mono_from t0 (presents hs2 ++ [(x, [], t1)]) ->
+  t1 < t0 + streamReplayInterval_ns ->
+  Z.of_nat (length (nodup N.eq_dec (remove N.eq_dec x (map op_sig (presents hs2))))) < streamReplayCapacity ->
+  let r := fst (front (sfinal s0 (hs1 ++ Present (x, [], t0) :: hs2)) src1 input1 t1) in
+  t_out r = [] /\ t_created r = [] /\ t_app r = [] /\ t_verdict r = V_replay.
+Proof. exact c06_replay_rejected_tcp_across_reload. Qed.
+Print Assumptions C06_replay_rejected_across_reload_tcp.
+
+(* UDP end to end across reloads: a datagram accepted from srcA under the generation current at t0, the same
+   bytes from another address srcB at t1 inside the bounds after any traffic and reloads, against any session table *)
+Theorem C06_replay_rejected_across_reload_udp :
+  forall (key : Type) (user_of : key -> N) (open_hdr : key -> bytes -> option bytes)
+         (open_body_udp : key -> bytes -> bytes -> option bytes) (le_ok : bytes -> bool)
+         (le_decode : bytes -> bytes -> option bytes) (sig_of : bytes -> N)
+         (cands_of : N -> bytes -> addr -> list key)
+         (T0 : Z) (c0 : cache) (g0 : N)
+         (hs1 : list sop) (ss0 : list (usession key)) (d : bytes) (srcA : addr) (t0 : Z)
+         (hs2 : list sop) (ss1 : list (usession key)) (srcB : addr) (t1 : Z),
+  new_cache packetReplayCapacity packetReplayInterval_ns T0 = Some c0 ->
+  let s0 := mkServer g0 c0 in
+  let front (s : server) (ss : list (usession key)) :=
+    udp_front key user_of open_hdr open_body_udp le_ok le_decode (cands_of (s_users s)) sig_of cache is_duplicate
+              (mkU key cache (s_rc s) ss) in
+  (let r0 := fst (front (sfinal s0 hs1) ss0 d srcA t0) in
+   u_created r0 <> [] \/ u_delivered r0 <> [] \/ u_out r0 <> []) ->
+  srcB <> srcA ->
+  let x := sig_of (firstn sig_len (firstn hdr_len d)) in
+  mono_from t0 (presents hs2 ++ [(x, srcB, t1)]) ->
+  t1 < t0 + packetReplayInterval_ns ->
+  Z.of_nat (length (nodup N.eq_dec (remove N.eq_dec x (map op_sig (presents hs2))))) < packetReplayCapacity ->
+  let r := front (sfinal s0 (hs1 ++ Present (x, srcA, t0) :: hs2)) ss1 d srcB t1 in
+  u_out (fst r) = [] /\ u_created (fst r) = [] /\ u_delivered (fst r) = [] /\
+  u_sessions (snd r) = ss1 /\
+  (u_verdict (fst r) = V_replay_drop \/ u_verdict (fst r) = V_undecryptable).
+Proof. exact c06_replay_rejected_udp_across_reload. Qed.
+Print Assumptions C06_replay_rejected_across_reload_udp.
